@@ -32,6 +32,7 @@ var defaultRedirects = map[string]string{
 	"sort.SliceStable":                   "golang.org/x/telemetry/internal/vrt.SortSlice",
 	"sort.Strings":                       "golang.org/x/telemetry/internal/vrt.SortStrings",
 	"time.Now":                           "golang.org/x/telemetry/internal/vrt.Now",
+	"runtime/debug.ReadBuildInfo":        "golang.org/x/telemetry/internal/vrt.ReadBuildInfo",
 }
 
 var defaultSkipInit = []string{"unicode", "runtime", "os", "syscall", "internal/poll", "net", "net/http", "crypto/rand", "reflect", "encoding/json", "regexp", "regexp/syntax", "log", "fmt", "flag", "testing", "internal/godebug", "math/rand", "html", "crypto/tls", "crypto/x509"}
